@@ -589,16 +589,22 @@ pub const HEADER_VALUES: [&[u8]; 30] = [
 
 /// Attach X-Retry-After headers (from the grammar above, duplicates included) to scripted replies.
 pub fn decorate_retry_after(script: &mut Script, rng: &mut Rng, num: u64, den: u64) -> String {
+    decorate_retry_after_opt(script, rng, num, den, true)
+}
+
+/// `allow_dontcare = false`: only values whose meaning the statement decides ('+N' and conflicting
+/// duplicates excluded), for checks whose model needs the retry decision.
+pub fn decorate_retry_after_opt(script: &mut Script, rng: &mut Rng, num: u64, den: u64, allow_dontcare: bool) -> String {
     let mut label = String::new();
     let deco = |r: &mut RespSpec, rng: &mut Rng, label: &mut String| {
         if let RespSpec::Reply(rep) = r {
             if rng.chance(num, den) {
-                let i = rng.usize(HEADER_VALUES.len());
+                let i = rng.usize(if allow_dontcare { HEADER_VALUES.len() } else { HEADER_VALUES.len() - 1 });
                 rep.headers.push(("X-Retry-After".into(), HEADER_VALUES[i].to_vec()));
                 label.push_str(&format!("h{},", i));
                 if rng.chance(1, 10) {
                     // duplicate header: same value (definite) or a different one (don't-care)
-                    let j = if rng.bool() { i } else { rng.usize(HEADER_VALUES.len()) };
+                    let j = if rng.bool() || !allow_dontcare { i } else { rng.usize(HEADER_VALUES.len()) };
                     rep.headers.push(("x-retry-after".into(), HEADER_VALUES[j].to_vec()));
                     label.push_str(&format!("dup{},", j));
                 }
